@@ -440,7 +440,7 @@ func c06Parsers(c *Ctx) {
 			}
 		}
 	}
-	nQR := c.Pick(9000, 1200000)
+	nQR := c.Pick(25000, 1200000)
 	for i := 0; i < nQR; i++ {
 		ver := r.Range(1, 40)
 		var b []byte
@@ -458,7 +458,7 @@ func c06Parsers(c *Ctx) {
 		c06QRParse(c, b, ver, c06Levels[r.Intn(4)], h, class, hd)
 	}
 	// ----- Data Matrix -----
-	nDM := c.Pick(9000, 1200000)
+	nDM := c.Pick(25000, 1200000)
 	for i := 0; i < nDM; i++ {
 		var b []byte
 		var class string
@@ -519,7 +519,7 @@ func c06Parsers(c *Ctx) {
 			c06AztecHLD(c, w.bits, "flg")
 		}
 	}
-	nAz := c.Pick(9000, 1200000)
+	nAz := c.Pick(25000, 1200000)
 	for i := 0; i < nAz; i++ {
 		var bits []bool
 		var class string
